@@ -627,13 +627,13 @@ _PAIRS = ['{}/{}'.format(t, f) for t in R.TYPES for f in FORMATS[t]]
 
 SUBCHECKS = [
     SubCheck('roundtrip', run_roundtrip, strategy=strat_roundtrip, enumerate_cases=enum_roundtrip,
-             quick=3000, thorough=50000,
+             quick=2500, thorough=50000,
              rule="graphs of the four types with 0..14 vertices (10..14 in a third of the cases), random edge subsets of density 0, 1/2 .. 1/16 (isolated vertices, empty sides, loops and back edges for digraphs), default or generated one-line name, every format of supported_graph_formats() for the type, five routes: StringIO with explicit format / file name with the format taken from the extension and with explicit format / open file handle / Graph.from_file (name, name+format, handle+format) / command-line graph argument '<file>', '<format> <file>', '<format> -' (standard input) and 'save <file>' / 'save <format> <file>'; plus every simple graph and dag on <=4 vertices, digraph on <=3, bipartite graph with sides <=2 in every format through StringIO; oracle: class, vertex count, left/right split, list(edges()), number_of_edges(), is_dag() all as in the original, and (StringIO route, in-house formats) the written text means the same graph to the independent reference reader; non-trivial: >=1 edge and >=3 vertices",
              required_labels=_PAIRS + ['route:' + r for r in ROUTES] + ['>=10-vertices', 'isolated', 'empty-side',
                                                                        'null-graph', 'has-back-edge', 'self-loop',
                                                                        'named', 'last-vertex-isolated', 'written-text-valid']),
     SubCheck('readers_text', run_text, strategy=strat_text, enumerate_cases=enum_text,
-             quick=24000, thorough=400000,
+             quick=20000, thorough=400000,
              rule="texts for kthlist (simple, digraph, dag, bipartite), dimacs (simple, digraph, dag) and matrix: written by the reference writers in several layouts from random graphs (0..14 vertices), optionally with an edge the type forbids, then 0..3 mutations (blank / whitespace / comment lines anywhere, truncation, deleted / duplicated / swapped lines, changed / deleted / inserted numbers, deleted / inserted characters, CR LF, int() spellings, indentation, continuation lines, unknown line types) or short random texts over the format's alphabet, plus the snippets of tests/ and of the documentation; oracle: independent reference reader (valid -> exactly that graph, invalid -> ValueError, gray -> either), never an exception other than ValueError, a text read as 'dag' is accepted only if all edges go upward; non-trivial: the text has a size line and at least one edge token. Thorough tier only: one atheris (libFuzzer, coverage of cnfgen.graphs) campaign per in-house reader and graph type, from an empty corpus and from a seed corpus (snippets of tests/ + reference-writer output), -runs={} each, max_len 160, in a sub-process with a fresh corpus directory under out/fuzz, the same oracle applied to every input inside the target".format(FUZZ_RUNS),
              required_labels=['{}/{}'.format(f, t) for t in R.TYPES for f in R.INHOUSE[t]] +
              ['blank-line', 'comment-line', 'rejected', 'dag-rejected', 'valid-accepted', 'ref:valid', 'ref:invalid',
@@ -642,7 +642,7 @@ SUBCHECKS = [
               'why:vertex-lines-not-increasing', 'why:too-few-entries', 'why:too-many-entries',
               'why:no-size-line', 'mut:truncate']),
     SubCheck('nx_docs', run_nxdoc, strategy=strat_nxdoc,
-             quick=2500, thorough=40000,
+             quick=2000, thorough=40000,
              rule="GML and DOT documents written by the harness's own writers (0..14 nodes, identifiers 1..n / 0..n-1 / with gaps / alphabetic, node statements in order or shuffled, quoted identifiers, labels, extra attributes, comments, one-line layout, undeclared nodes, either endpoint first for undirected edges, bipartite attribute); unmutated documents must be read exactly (numbering by increasing identifier; a dag document with a back edge must be rejected); a quarter of the documents get 1..3 text mutations and must give a graph or ValueError; non-trivial: >=1 edge and >=3 nodes",
              required_labels=['{}/{}'.format(t, f) for t in R.TYPES for f in ('gml', 'dot')] +
              ['exact', 'mutated', 'rejected', 'shuffled-nodes', '>=10-vertices', 'dag-rejected']),
